@@ -1,7 +1,9 @@
 """C19 -- exceeding a configured capacity is reported, never silently corrupting (structural clauses)."""
 from ..rules import capacity, search
 
-EXPLANATION = "tmp"
+EXPLANATION = (
+    "Static analysis of capacity guards: the constructor path that allocates the stacks entails 1 <= stack_max_height <= 2^bits of the level pointer's dtype; before the indirect value-heuristic call solve_one's path facts entail top + P < len(stack) with P the largest net push of any registered value heuristic (derived: 2); the shaving probe is reached only under top + 1 < len(stack). uint16 cumulative constraint offsets are listed as undecided (NumPy raises on the inconsistent slice, not claimed)."
+)
 
 
 def check(ctx, prog):
